@@ -218,6 +218,32 @@ def check_tree(tree, model, opts, deep=True, rng=None):
             pl = fr.path_up(u).index(v)
             if tree.path_length(u, v) != pl:
                 bad.append(("path_length", f"path_length({u},{v})={tree.path_length(u, v)} expected {pl}"))
+    # multi-argument mrca / tmrca: the fold of the pairwise MRCA, NULL as soon as two arguments are disconnected
+    if n >= 3:
+        import random as _random
+        r2 = rng or _random.Random(n * 7919 + len(model.edges))
+        for _ in range(12):
+            k = r2.choice([3, 3, 4, 5])
+            args = [r2.randrange(n + 1) if r2.random() < 0.1 else r2.randrange(n) for _ in range(k)]
+            e = args[0]
+            for v in args[1:]:
+                e = NULL if (e == NULL or e == n or v == n) else fr.mrca(e, v)
+                if e == NULL:
+                    break
+            if n in args:
+                continue  # the virtual root as an argument: what its MRCA with a real node is, is not documented
+            g = tree.mrca(*args)
+            if g != e:
+                bad.append(("mrca", f"mrca{tuple(args)}={g} expected {e}"))
+            try:
+                tg = tree.tmrca(*args)
+                if e == NULL:
+                    bad.append(("tmrca", f"tmrca{tuple(args)}={tg} but the nodes share no ancestor (ValueError documented)"))
+                elif tg != model.time(e):
+                    bad.append(("tmrca", f"tmrca{tuple(args)}={tg} expected {model.time(e)}"))
+            except ValueError:
+                if e != NULL:
+                    bad.append(("tmrca", f"tmrca{tuple(args)} raised ValueError but the MRCA is {e}"))
     tbl = 0.0
     reach = set()
     for r in exp_roots:
@@ -301,7 +327,93 @@ def check_tree(tree, model, opts, deep=True, rng=None):
             tm = None if math.isnan(mu.time) else mu.time
             if (mu.site, mu.node, mu.derived_state, mu.parent, tm, mu.metadata) != mm:
                 bad.append(("mutations", f"mutation {mu.id} fields {mu} expected {mm}"))
+    # (7b) the remaining per-node views
+    samples_order = list(tree.tree_sequence.samples())
+    for u in range(n):
+        anc = list(tree.ancestors(u))
+        if anc != fr.path_up(u)[1:]:
+            bad.append(("ancestors", f"ancestors({u})={anc} expected {fr.path_up(u)[1:]}"))
+        if u in exp_roots:
+            es = set(exp_roots) - {u}
+        elif u in fr.parent:
+            es = set(fr.kids(fr.parent[u])) - {u}
+        else:
+            es = set()
+        gs = tree.siblings(u)
+        if set(gs) != es or len(gs) != len(es):
+            bad.append(("siblings", f"siblings({u})={gs} expected {sorted(es)}"))
+        if tree.is_root(u) != (u in exp_roots):
+            bad.append(("is_root", f"is_root({u})={tree.is_root(u)} roots={sorted(exp_roots)}"))
+        if tree.edge(u) != int(ea[u]):
+            bad.append(("edge", f"edge({u})={tree.edge(u)} edge_array={int(ea[u])}"))
+        if tree.population(u) != model.nodes[u][2]:
+            bad.append(("population", f"population({u})"))
+        if tree.num_children(u) != len(fr.kids(u)):
+            bad.append(("num_children", f"num_children({u})={tree.num_children(u)}"))
+    if tree.parent_dict != fr.parent:
+        bad.append(("parent_dict", f"parent_dict={tree.parent_dict} expected {fr.parent}"))
+    dod = tree.as_dict_of_dicts()
+    exp_dod = {u: {c: {"branch_length": fr.branch_length(c)} for c in fr.kids(u)} for u in reach}
+    if dod != exp_dod:
+        bad.append(("as_dict_of_dicts", f"as_dict_of_dicts={dod} expected {exp_dod}"))
+    if tree.has_single_root != (len(exp_roots) == 1) or tree.has_multiple_roots != (len(exp_roots) > 1):
+        bad.append(("roots", "has_single_root/has_multiple_roots"))
+    if tree.right_root != (roots[-1] if roots else NULL):
+        bad.append(("roots", f"right_root={tree.right_root} roots={roots}"))
+    if tree.span != right - left or tree.mid != left + (right - left) / 2:
+        bad.append(("interval", f"span={tree.span} mid={tree.mid} for [{left},{right})"))
+    for u, v in pairs[:10]:
+        e = fr.mrca(u, v)
+        if e != NULL:
+            d = 2 * model.time(e) - model.time(u) - model.time(v)
+            if not isclose(float(tree.distance_between(u, v)), d, 1e-12, 1e-12):
+                bad.append(("distance_between", f"distance_between({u},{v})={tree.distance_between(u, v)} expected {d}"))
+    if opts.get("sample_lists"):
+        for u in range(n):
+            sb = set(fr.samples_below(u))
+            got = []
+            i = tree.left_sample(u)
+            if (i == NULL) != (not sb):
+                bad.append(("sample_lists", f"left_sample({u})={i} but samples below are {sorted(sb)}"))
+                continue
+            guard = 0
+            while i != NULL and guard <= len(samples_order):
+                got.append(int(samples_order[i]))
+                if i == tree.right_sample(u):
+                    break
+                i = tree.next_sample(i)
+                guard += 1
+            if sorted(got) != sorted(sb):
+                bad.append(("sample_lists", f"left/next/right_sample walk below {u} gives {got}, expected {sorted(sb)}"))
     # balance indices where defined
+    if len(exp_roots) == 1:
+        root0 = next(iter(exp_roots))
+        maxpath = {}
+
+        def mp(v):
+            if v not in maxpath:
+                maxpath[v] = 0 if not fr.kids(v) else 1 + max(mp(c) for c in fr.kids(v))
+            return maxpath[v]
+
+        b1 = sum(1.0 / mp(v) for v in fr.descendants(root0) if fr.kids(v) and v != root0)
+        try:
+            if not isclose(float(tree.b1_index()), b1, 1e-12, 1e-15):
+                bad.append(("balance", f"b1_index {tree.b1_index()} expected {b1}"))
+        except Exception as ex:  # noqa: BLE001
+            bad.append(("balance", f"b1_index raised {ex!r}"))
+        b2 = 0.0
+        stack = [(root0, 1.0)]
+        while stack:
+            v, pr = stack.pop()
+            if not fr.kids(v):
+                b2 -= pr * math.log(pr, 10)
+            for c in fr.kids(v):
+                stack.append((c, pr / len(fr.kids(v))))
+        try:
+            if not isclose(float(tree.b2_index()), b2, 1e-9, 1e-12):
+                bad.append(("balance", f"b2_index {tree.b2_index()} expected {b2}"))
+        except Exception as ex:  # noqa: BLE001
+            bad.append(("balance", f"b2_index raised {ex!r}"))
     if len(exp_roots) == 1:
         root = next(iter(exp_roots))
         sack = sum(fr.depth(v) for v in fr.descendants(root) if not fr.kids(v))
